@@ -15,6 +15,7 @@ import (
 	"fmt"
 	"github.com/henrylee2cn/erpc/v6/plugin/heartbeat"
 	"github.com/henrylee2cn/erpc/v6/plugin/secure"
+	"net"
 	"sort"
 	"strings"
 	"sync"
@@ -867,6 +868,111 @@ func runChaos(e *env, idx int, r *core.Rand) {
 	report(id, "chaos", fmt.Sprintf("%s/%s", e.p.Name, action), desc, vs, ok, fmt.Sprintf("chaos/%s/%s/%d", e.p.Name, action, ncalls))
 }
 
+// ---------------- (e) a session dialed while the goroutine pool has no room ----------------
+
+// runDialSaturated: the process-wide goroutine pool is small (this batch runs with erpc.SetGopool(smallPool)); one session
+// is up, parked handlers occupy the rest of the pool, a second session is dialed over loopback TCP meanwhile, then the
+// handlers are released. Calls on both sessions complete exactly once.
+func runDialSaturated(e *env, idx int) {
+	id := fmt.Sprintf("dial-saturated.%s.%d", e.p.Name, idx)
+	desc := map[string]interface{}{"class": "dial-saturated", "proto": e.p.Name, "pool": smallPool, "parked_handlers": smallPool - 2}
+	core.Begin(id, desc)
+	core.Add("evaluations", 1)
+	core.Add("dial_saturated_cases", 1)
+	core.Sample(desc)
+	lis, err := net.Listen("tcp", "127.0.0.1:0")
+	if err != nil {
+		core.Result(core.R{ID: id, Verdict: core.Inconclusive, What: "listen: " + err.Error()})
+		return
+	}
+	var accepted int64
+	defer lis.Close()
+	go func() {
+		for {
+			c, err := lis.Accept()
+			if err != nil {
+				return
+			}
+			atomic.AddInt64(&accepted, 1)
+			go e.srv.ServeConn(c, e.p.Func)
+		}
+	}()
+	gates.Reset()
+	m := newMonitor()
+	s1, st := e.cli.Dial(lis.Addr().String(), e.p.Func)
+	if !st.OK() {
+		core.Result(core.R{ID: id, Verdict: core.Inconclusive, What: "dial 1: " + st.String()})
+		return
+	}
+	settle()
+	setHold(true)
+	outs := make([][]byte, 16)
+	for i := 0; i < smallPool-2; i++ {
+		m.call(s1, fmt.Sprintf("parked call %d", i), e.routes["echo"], []byte(fmt.Sprintf("p%d", i)), &outs[i], erpc.WithBodyCodec(codec.ID_PLAIN))
+	}
+	settle() // both read loops and the parked handlers hold every goroutine of the pool
+	type dialed struct {
+		s  erpc.Session
+		st *erpc.Status
+	}
+	dch := make(chan dialed, 1)
+	go func() {
+		s2, st2 := e.cli.Dial(lis.Addr().String(), e.p.Func)
+		dch <- dialed{s2, st2}
+	}()
+	// the dial is now waiting for a goroutine for its read loop (the pool's MustGo polls, so the process is not quiescent
+	// meanwhile), or it has wrongly gone on without one; the wait below only places the release, it judges nothing
+	bed.WaitUntil(5*time.Second, func() bool { return atomic.LoadInt64(&accepted) >= 2 })
+	time.Sleep(30 * time.Millisecond)
+	holdMu.Lock()
+	if holdCh != nil {
+		close(holdCh)
+		holdCh = nil
+	}
+	holdMu.Unlock()
+	var d dialed
+	select {
+	case d = <-dch:
+	case <-time.After(30 * time.Second):
+		core.Result(core.R{ID: id, Verdict: core.Inconclusive, What: "watchdog: the second Dial did not return"})
+		return
+	}
+	settle()
+	var closers []*closer
+	if d.st.OK() && d.s != nil {
+		for i := 0; i < 3; i++ {
+			m.call(d.s, fmt.Sprintf("call %d on the session dialed under saturation", i), e.routes["echo"], []byte(fmt.Sprintf("d%d", i)), &outs[8+i], erpc.WithBodyCodec(codec.ID_PLAIN))
+		}
+		settle()
+		// everything that could happen has happened: the server answered (the connection is healthy on both sides)
+		m.mu.Lock()
+		var early []viol
+		for _, t := range m.calls {
+			if strings.Contains(t.label, "dialed under saturation") && isDone(t.issued) && !isDone(t.cmd.Done()) && d.s.Health() {
+				early = append(early, viol{"reply-arrived-call-incomplete", t.label + ": incomplete at quiescence although its session is healthy and the server has answered"})
+			}
+		}
+		m.mu.Unlock()
+		closers = append(closers, goClose("Close(session dialed under saturation)", func() { d.s.Close() }))
+		closers = append(closers, goClose("Close(first session)", func() { s1.Close() }))
+		q := settle()
+		if !q.Quiescent {
+			core.Result(core.R{ID: id, Verdict: core.Inconclusive, What: "watchdog: not quiescent"})
+			return
+		}
+		vs := append(early, evaluate(m, closers, q.Dump)...)
+		report(id, "dial-saturated", e.p.Name, desc, vs, true, "dial-saturated/"+e.p.Name)
+		return
+	}
+	closers = append(closers, goClose("Close(first session)", func() { s1.Close() }))
+	q := settle()
+	vs := evaluate(m, closers, q.Dump)
+	report(id, "dial-saturated", e.p.Name, desc, vs, q.Quiescent, "dial-saturated/"+e.p.Name)
+}
+
+// smallPool: in the last batch of a run the process-wide goroutine pool is this small
+const smallPool = 6
+
 func main() {
 	flag.Parse()
 	core.Prop = *prop
@@ -886,9 +992,21 @@ func main() {
 		nChaos = 600
 		stride = 1
 	}
+	// the last batch runs only the dial-under-saturation cases, with a small process-wide goroutine pool
+	if *batch == *nbatch-1 {
+		erpc.SetGopool(smallPool, 0)
+		for _, name := range []string{"raw", "json", "pb"} {
+			e := newEnv(protos.ByName(name))
+			for k := 0; k < 4; k++ {
+				runDialSaturated(e, k)
+			}
+		}
+		core.Finish()
+		return
+	}
 	// work items are spread over batches round-robin
 	item := 0
-	mine := func() bool { item++; return (item-1)%*nbatch == *batch }
+	mine := func() bool { item++; return (item-1)%(*nbatch-1) == *batch }
 	for _, name := range names {
 		p := protos.ByName(name)
 		e := newEnv(p)
